@@ -2121,8 +2121,15 @@ class CodeGenerator(NodeVisitor):
         old_ctx_name = self.temporary_identifier()
         saved_ctx = frame.eval_ctx.save()
         self.writeline(f"{old_ctx_name} = context.eval_ctx.save()")
+        # Restore the eval context also when the body raises or the
+        # generator is closed early. The context can outlive the render: the
+        # macros of a cached imported module share the module's context.
+        self.writeline("try:")
+        self.indent()
         self.visit_EvalContextModifier(node, frame)
         for child in node.body:
             self.visit(child, frame)
+        self.writeline("pass")
+        self.outdent()
         frame.eval_ctx.revert(saved_ctx)
-        self.writeline(f"context.eval_ctx.revert({old_ctx_name})")
+        self.writeline(f"finally: context.eval_ctx.revert({old_ctx_name})")
